@@ -1,5 +1,10 @@
 """C17 Peak fitting returns one coherent result per peak; removal touches only windows.
 
+The workload quantifies over what the property quantifies over: estimates with and
+WITHOUT a peak under them (flat / sloped / curved backgrounds, noise only), every window
+class, and every documented form of the model and result arguments (names, instances,
+iterables of any kind including one-shot iterators, several models of the same class).
+
 Result monitors sit on the returns of ``fit_peaks`` and ``remove_peaks``; a
 trace of ``_fit_windows``, ``_fit_peak``, ``_fit_peak_single_model``,
 ``_perform_fit`` and ``_assess_fit`` (observed through their code objects)
@@ -27,16 +32,25 @@ from rv.trace import Tracer
 ID = 'C17'
 LEVEL = 'exploration'
 RULE = (
-    'case = one fit_peaks call on a generated spectrum (1..6 Gaussian/Lorentzian/pseudo-Voigt '
-    'peaks, FWHM 0.5..40 grid steps, linear or quadratic background, Gaussian noise with the '
-    'true variances, 50..2000 points, uniform / geometric / quadratically stretched grid, with '
-    'or without units) or one remove_peaks call on its results; window class (below the grid '
-    'step, a few points, moderate, wide, full range, explicit sorted, explicit unsorted / '
-    'overlapping / outside), estimate class (inside, on either edge, outside on either side, '
-    'two outside) and model specification class (names, foreign-prefix instances, lists, '
-    'mixed tuples) are cycled deterministically so that every combination occurs; distinct = '
-    'distinct (call, window class, estimate class, spec class, grid, #estimates) signatures; '
-    'no case is trivial'
+    'case = one fit_peaks call on a generated spectrum (1..6 estimates; under each a Gaussian / '
+    'Lorentzian / pseudo-Voigt peak of FWHM 0.5..40 grid steps or NO peak at all: content class '
+    'all peaks / some estimates without a peak / no peak anywhere; flat, sloped, curved or '
+    'strongly curved background, Gaussian noise with the true variances, 50..2000 points (..800 '
+    'for wide windows, ..1000 where estimates have no peak), uniform / geometric / quadratically '
+    'stretched grid, with or without units) or one remove_peaks call on its results; window class '
+    '(below the grid step, a few points, moderate, wide, full range, explicit sorted, explicit '
+    'unsorted / overlapping / outside; scalar widths of float or integer dtype), estimate class '
+    '(inside, on either edge, outside on either side, two outside), content class and the shape '
+    'of the model specification (1..3 peak models x 1..3 background models) are cycled '
+    'deterministically, the background class, the elements (names, instances with default / '
+    'expected / foreign prefix, polynomial degree 1..3, lists with several models of one class in '
+    'either order) and the iterable form are drawn; model lists and fit_results are handed over '
+    'in every iterable form: list, tuple, dict, dict views, deque, an object with only __iter__ '
+    '(re-iterable) and generator, iter(), filter, map, chain, reversed, a hand-written iterator '
+    '(one-shot; the monitors take their elements from what the workload registered, never from '
+    'the argument); FitParameters / FitRequirements fields as float, int or numpy scalar; '
+    'distinct = distinct (call, window class, estimate class, spec shape, grid, #estimates, '
+    'content, background class, iterable forms) signatures; no case is trivial'
 )
 ASSUMPTIONS = [
     'the points of a window are those selected by scipp label-based slicing of the sorted '
@@ -52,6 +66,12 @@ ASSUMPTIONS = [
     'for separation',
     'numpy long double evaluates the model formulas with error << 1e-12; scipy.stats.chi2 is '
     'the chi-square distribution',
+    '"better than the background alone" is judged against the weighted least-squares minimum of '
+    'the SAME polynomial degree as the successful result on the points of its window; for degree '
+    '> 2 (instances only) the code\'s own background fit stops measurably above that minimum and '
+    'the comparison is counted, not judged',
+    'a one-shot iterator argument is never read by a monitor: its elements are those the '
+    'workload registered for that object (unregistered one-shot iterators are counted, not judged)',
 ]
 TECHNIQUE = ('runtime monitors (sys.monitoring) on fit_peaks / remove_peaks returns and a call trace of '
              'the per-peak helpers; statistics, requirements, windows and removal recomputed by an '
@@ -64,7 +84,7 @@ LEVEL_TEXT = ('exploration: every observed fit_peaks / remove_peaks return in a 
 LEVEL_NOTE = ('trusted: numpy/scipy arithmetic and chi2 distribution, scipp containers and label-based '
               'slicing, rv.snap fingerprints, the sys.monitoring trace layer')
 DESIGN_REF = 'DESIGN.md section 4, C17; section 6 item 10'
-TIMEOUT_S = {'quick': 900, 'thorough': 4 * 3600}
+TIMEOUT_S = {'quick': 2400, 'thorough': 6 * 3600}  # watchdog only; the machine may be shared
 
 REL = 1e-9
 PEAK_CLASS = {'GaussianModel': 'gaussian', 'LorentzianModel': 'lorentzian',
@@ -86,16 +106,137 @@ def _degree_of_bkg_spec(s):
     return len(names) - 1 if names is not None else type(s).__name__
 
 
-def _as_list(spec):
-    if isinstance(spec, str) or not isinstance(spec, list | tuple):
-        return [spec]
-    return list(spec)
+class Sources:
+    """What lies behind the one-shot iterables the workload hands to the code under test.
+
+    A generator / ``filter`` / ``map`` / ``iter(list)`` argument can be looked at only once, and
+    that one look belongs to the code under test.  The workload therefore registers, by object
+    identity, the elements it put into each one-shot iterable (and how to build a fresh iterable
+    of the same form); monitors ask here instead of iterating the argument.  Re-iterable
+    arguments (list, tuple, dict, dict views, deque, objects with ``__iter__``) are not
+    registered: monitors iterate them themselves.
+    """
+
+    def __init__(self):
+        self._d = {}
+
+    def clear(self):
+        self._d.clear()
+
+    def register(self, obj, items, rebuild):
+        self._d[id(obj)] = (obj, list(items), rebuild)  # obj kept alive: ids stay unique
+        return obj
+
+    def lookup(self, obj):
+        e = self._d.get(id(obj))
+        return e if e is not None and e[0] is obj else None
+
+    def elements(self, obj):
+        """Elements of an iterable argument without consuming it (None: one-shot iterator the
+        workload did not register, cannot be known)."""
+        e = self.lookup(obj)
+        if e is not None:
+            return list(e[1])
+        it = iter(obj)
+        if it is obj:
+            return None
+        return list(it)
+
+    def fresh(self, obj):
+        """The same argument again, usable for a second call."""
+        e = self.lookup(obj)
+        return e[2]() if e is not None else obj
 
 
-def spec_pairs(peak_spec, bkg_spec):
-    """Documented order: every peak with every background, background varied first."""
-    return [(_kind_of_peak_spec(p), _degree_of_bkg_spec(b))
-            for p, b in itertools.product(_as_list(peak_spec), _as_list(bkg_spec))]
+class _ReIterable:
+    """An Iterable in the narrow sense: ``__iter__`` only (no ``__len__``, no indexing)."""
+
+    def __init__(self, items):
+        self._items = tuple(items)
+
+    def __iter__(self):
+        return iter(self._items)
+
+
+class _OneShot:
+    """A hand-written iterator (``__iter__`` returns self)."""
+
+    def __init__(self, items):
+        self._it = iter(tuple(items))
+
+    def __iter__(self):
+        return self
+
+    def __next__(self):
+        return next(self._it)
+
+
+# every way of handing over "an iterable of things"
+FORMS = ['list', 'generator', 'tuple', 'iter', 'dict_keys', 'filter', 'deque', 'map',
+         'iterable_object', 'chain', 'dict_values', 'iterator_object', 'reversed', 'dict']
+ONE_SHOT_FORMS = {'generator', 'iter', 'filter', 'map', 'chain', 'iterator_object', 'reversed'}
+
+
+def in_form(form, items, sources):
+    """``items`` as an iterable of the given form (one-shot forms are registered)."""
+    import collections
+
+    items = list(items)
+    if form in ('dict_keys', 'dict') and len({id(i) if not isinstance(i, str) else i
+                                               for i in items}) != len(items):
+        form = 'list'  # repeated names cannot be dict keys
+
+    def build():
+        if form == 'list':
+            obj = list(items)
+        elif form == 'tuple':
+            obj = tuple(items)
+        elif form == 'generator':
+            obj = (i for i in items)
+        elif form == 'iter':
+            obj = iter(list(items))
+        elif form == 'filter':
+            obj = filter(lambda i: True, list(items))
+        elif form == 'map':
+            obj = map(lambda i: i, list(items))
+        elif form == 'chain':
+            h = len(items) // 2
+            obj = itertools.chain(items[:h], iter(items[h:]))
+        elif form == 'reversed':
+            obj = reversed(items[::-1])
+        elif form == 'dict_keys':
+            obj = dict.fromkeys(items).keys()
+        elif form == 'dict':
+            obj = dict.fromkeys(items)
+        elif form == 'dict_values':
+            obj = dict(enumerate(items)).values()
+        elif form == 'deque':
+            obj = collections.deque(items)
+        elif form == 'iterable_object':
+            obj = _ReIterable(items)
+        elif form == 'iterator_object':
+            obj = _OneShot(items)
+        else:
+            raise KeyError(form)
+        if iter(obj) is obj:
+            sources.register(obj, items, build)
+        return obj
+
+    return build(), form
+
+
+def _is_single_model(spec):
+    return isinstance(spec, str) or hasattr(spec, 'param_names')
+
+
+def spec_pairs(peak_spec, bkg_spec, sources):
+    """Documented order: every peak with every background, background varied first.
+    None if a specification is a one-shot iterator of unknown content."""
+    ps = [peak_spec] if _is_single_model(peak_spec) else sources.elements(peak_spec)
+    bs = [bkg_spec] if _is_single_model(bkg_spec) else sources.elements(bkg_spec)
+    if ps is None or bs is None:
+        return None
+    return [(_kind_of_peak_spec(p), _degree_of_bkg_spec(b)) for p, b in itertools.product(ps, bs)]
 
 
 def _model_pair(peak_model, bkg_model):
@@ -155,6 +296,7 @@ class Monitors:
     def __init__(self, ctx, FP):
         self.ctx = ctx
         self.FP = FP
+        self.sources = Sources()
         self.calls = []  # stack of records of running fit_peaks calls
         self.tag = {}  # workload facts of the case in flight (for signatures / witnesses)
 
@@ -173,7 +315,7 @@ class Monitors:
     def fit_peaks_start(self, ev):
         a = ev.args
         self.calls.append({
-            'pairs': spec_pairs(a.get('peak'), a.get('background')),
+            'pairs': spec_pairs(a.get('peak'), a.get('background'), self.sources),
             'fit_windows': None, 'peaks': [], 'fp_data': fp(a.get('data')),
         })
 
@@ -258,8 +400,9 @@ class Monitors:
             # how close the code's own background fit is to the linear least-squares minimum
             mine = pm.background_only_aic(x, y, var, len(coef) - 1)
             if math.isfinite(mine) and math.isfinite(rep['aic']):
-                ctx.dev('bkg_aic.code_minus_lsq', rep['aic'] - mine)
-                ctx.dev('bkg_aic.lsq_minus_code', mine - rep['aic'])
+                sfx = '' if len(coef) <= 3 else '.degree>2'
+                ctx.dev('bkg_aic.code_minus_lsq' + sfx, rep['aic'] - mine)
+                ctx.dev('bkg_aic.lsq_minus_code' + sfx, mine - rep['aic'])
                 if mine - rep['aic'] > 1e-6 * len(x) + REL * abs(mine):
                     ctx.inconclusive_because(
                         'independent weighted least squares is not the minimum: '
@@ -281,6 +424,10 @@ class Monitors:
         if rec is None or cur is None or ev.exc is not None:
             return
         expected = rec['pairs']
+        if expected is None:
+            ctx.count('model_order_not_judged:one_shot_specification_of_unknown_content')
+            cur['returned'] = ev.result
+            return
         tried = [a['pair'] for a in cur['attempts']]
         names = [a['result'].assessment.name if a['result'] is not None else None
                  for a in cur['attempts']]
@@ -356,7 +503,11 @@ class Monitors:
         lo_all = used['range', 0].values
         hi_all = used['range', 1].values
         pairs = rec['pairs']
+        if pairs is None:
+            ctx.count('fit_peaks_not_judged:one_shot_specification_of_unknown_content')
+            return
         kmin = min(pm.n_params(kd, dg) for kd, dg in pairs)
+        peak_free = self.tag.get('peak_free')
         for i, r in enumerate(res):
             case = {**base, 'peak_index': i, 'window': [float(lo_all[i]), float(hi_all[i])]}
             wv = r.window.values
@@ -387,10 +538,15 @@ class Monitors:
                                   f'{n} points, smallest model has {kmin} parameters, got {name!r}',
                                   case, level='fit_peaks')
                     continue
+            free = bool(peak_free[i]) if peak_free is not None and i < len(peak_free) else None
             if name == 'window_too_narrow':
                 ctx.count('assessment:window_too_narrow')
                 continue
             ctx.count('assessment:' + name)
+            if free:
+                ctx.event('peak_free_window')
+                ctx.count('peak_free_window:' + name)
+                case['peak_free_window'] = True
             pv = _popt_values(r.popt)
             coef, pk = _split_popt(pv)
             k = pm.n_params(*pair)
@@ -412,7 +568,7 @@ class Monitors:
             if name == 'success':
                 req = a.get('fit_requirements') or self.FP.FitRequirements()
                 judge_success(ctx, xw, yw, vw, float(lo_all[i]), float(hi_all[i]), coef, pk, pair,
-                              rep, req, case)
+                              rep, req, case, position=pairs.index(pair), peak_free=free)
         self._judge_better_than(res, base)
         self._judge_isolation(a, res, used, base)
 
@@ -442,7 +598,8 @@ class Monitors:
             n = int(pm.in_window(x, lo, hi).sum())
             p = float(est.values[j])
             att = rec['peaks'][j]['attempts'][-1] if j < len(rec['peaks']) and rec['peaks'][j]['attempts'] else None
-            k = att['k'] if att and 'k' in att else min(pm.n_params(*pr) for pr in rec['pairs'])
+            k = att['k'] if att and 'k' in att else min(
+                (pm.n_params(*pr) for pr in rec['pairs'] or []), default=5)
             keys.update(points=_npoints_class(n), points_lt_params=bool(n < k),
                         inverted_window=bool(lo > hi),
                         estimate_outside=bool(p < x[0] or p > x[-1]))
@@ -464,7 +621,8 @@ class Monitors:
             try:
                 single = self.FP.fit_peaks(
                     a['data'], peak_estimates=est[edim, i:i + 1], windows=w,
-                    background=a['background'], peak=a['peak'],
+                    background=self.sources.fresh(a['background']),
+                    peak=self.sources.fresh(a['peak']),
                     fit_parameters=a.get('fit_parameters'),
                     fit_requirements=a.get('fit_requirements'))
             except Exception as e:  # noqa: BLE001
@@ -521,10 +679,15 @@ def judge_stats(ctx, x, y, var, coef, pk, kind, rep, label, case):
     return {'chi2': chi2, 'st': st, 'ok': ok_all}
 
 
-def judge_success(ctx, xw, yw, vw, lo, hi, coef, pk, pair, rep, req, case):
-    """(iii) a result marked successful satisfies every stated requirement."""
+def judge_success(ctx, xw, yw, vw, lo, hi, coef, pk, pair, rep, req, case, position=0,
+                  peak_free=None):
+    """(iii) a result marked successful satisfies every stated requirement.
+
+    ``position``: index of the successful pair in the documented order of attempts;
+    ``peak_free``: the workload put no peak under this estimate (tallies only)."""
     kind, deg = pair
     ctx.event('success_requirements')
+    which = 'first_pair' if position == 0 else 'later_pair'
 
     def bad(which, what, **kw):
         ctx.violation('success_violates_requirement', f'success although {what}',
@@ -560,7 +723,13 @@ def judge_success(ctx, xw, yw, vw, lo, hi, coef, pk, pair, rep, req, case):
             ctx.count('undecided:min_width_between_adjacent_spacings')
     # better than the background alone, AIC of an independent linear least-squares fit
     n = len(xw)
-    if n > deg + 1:
+    if deg > 2:
+        # measured on the unchanged tree: the code's own background-only fit of a cubic in the
+        # raw (uncentred) coordinate stops up to 0.1 AIC units above the least-squares minimum
+        # (bkg_aic.code_minus_lsq), so the threshold "AIC of the background alone" cannot be
+        # located to the band used below; degrees 1 and 2 (the named models) agree to < 1e-5
+        ctx.count('success_vs_background_aic_not_judged:degree>2')
+    elif n > deg + 1:
         aic_b = pm.background_only_aic(xw, yw, vw, deg)
         aic = rep['aic']
         if math.isfinite(aic_b) and math.isfinite(aic):
@@ -568,9 +737,16 @@ def judge_success(ctx, xw, yw, vw, lo, hi, coef, pk, pair, rep, req, case):
             ctx.dev('success.aic_minus_background_aic', aic - aic_b)
             if aic > aic_b + band:
                 bad('better_than_background', f'AIC = {aic!r} is worse than the background-only '
-                    f'AIC = {aic_b!r} (independent weighted least squares)')
+                    f'AIC = {aic_b!r} (independent weighted least squares, degree {deg})',
+                    attempt=which)
             elif aic > aic_b - band:
                 ctx.count('undecided:aic_within_band_of_background')
+            if not aic_b - band < aic <= aic_b + band:
+                ctx.event('success_vs_background_aic')
+                ctx.event('success_vs_background_aic.' + which)
+                ctx.count(f'success_vs_background_aic:{kind}+degree{deg}')
+                if peak_free:
+                    ctx.event('success_vs_background_aic.peak_free_window')
         else:
             ctx.count('aic_not_finite')
 
@@ -631,22 +807,43 @@ def judge_auto_windows(ctx, data, center, width, fit_parameters, result, tag):
                 ctx.event('auto_window_separation')
 
 
-def make_remove_monitor(ctx, tag):
-    """(vii) remove_peaks: input unchanged, outside bitwise, inside minus the analytic peaks."""
+def _iterable_class(obj):
+    if isinstance(obj, list | tuple):
+        return 'sequence'
+    try:
+        return 'one_shot_iterator' if iter(obj) is obj else 're_iterable'
+    except TypeError:
+        return 'not_iterable'
+
+
+def make_remove_monitor(ctx, tag, sources):
+    """(vii) remove_peaks: input unchanged, outside bitwise, inside minus the analytic peaks.
+
+    ``fit_results`` is documented as an Iterable: the results are never read from the argument
+    of a one-shot iterator (that would take them away from the code under test) but from what
+    the workload registered for it."""
 
     def on_start(ev):
         data, fits = ev.args['data'], ev.args['fit_results']
-        return {'fp_data': fp(data), 'fp_fits': fp(fits) if isinstance(fits, list | tuple) else None,
+        items = sources.elements(fits)
+        return {'fp_data': fp(data), 'items': items,
+                'fp_fits': fp(items) if items is not None else None,
                 'y': np.array(data.values, copy=True)}
 
     def on_return(ev):
-        data, fits = ev.args['data'], ev.args['fit_results']
+        data = ev.args['data']
         pre = ev.pre
+        fits = pre['items']
         dim = data.dim
         x = data.coords[dim].values
-        base = {'n_points': len(x), 'n_results': len(fits) if hasattr(fits, '__len__') else None,
-                **tag}
+        how = _iterable_class(ev.args['fit_results'])
+        base = {'n_points': len(x), 'n_results': len(fits) if fits is not None else None,
+                'fit_results_given_as': type(ev.args['fit_results']).__name__, **tag}
+        if fits is None:
+            ctx.count('remove_peaks_not_judged:one_shot_iterator_of_unknown_content')
+            return
         ctx.event('remove_peaks')
+        ctx.event('remove_peaks.' + how)
         if ev.exc is not None:
             if type(ev.exc).__name__ == 'VariancesError' and data.variances is not None:
                 ctx.count('remove_peaks_refused_variances')  # documented refusal
@@ -656,7 +853,7 @@ def make_remove_monitor(ctx, tag):
             if fp(data) != pre['fp_data']:
                 ctx.violation('remove_mutated_input', 'remove_peaks changed its input', base)
             return
-        if fp(data) != pre['fp_data'] or (pre['fp_fits'] is not None and fp(fits) != pre['fp_fits']):
+        if fp(data) != pre['fp_data'] or fp(fits) != pre['fp_fits']:
             ctx.violation('remove_mutated_input', 'remove_peaks changed its input (data or results)',
                           base)
         out = ev.result
@@ -673,7 +870,8 @@ def make_remove_monitor(ctx, tag):
         if (out.dims != data.dims or out.shape != data.shape or out.unit != data.unit
                 or out.variances is not None or set(out.coords) != set(data.coords)
                 or any(fp(out.coords[c]) != fp(data.coords[c]) for c in data.coords)
-                or set(out.masks) != set(data.masks)):
+                or set(out.masks) != set(data.masks)
+                or any(fp(out.masks[c]) != fp(data.masks[c]) for c in data.masks)):
             ctx.violation('remove_changed_structure', 'output differs from the input in dims, unit, '
                           'coordinates or masks', base)
             return
@@ -686,7 +884,7 @@ def make_remove_monitor(ctx, tag):
             j = int(np.flatnonzero(outside)[np.argmin(same)])
             ctx.violation('remove_changed_outside', f'{int((~same).sum())} points outside every '
                           f'successful window changed, e.g. x = {float(x[j])!r}: {float(y0[j])!r} -> {float(got[j])!r}',
-                          {**base, 'index': j}, n_successful=len(succ))
+                          {**base, 'index': j}, n_successful=len(succ), given_as=how)
         if covered.any():
             heights = np.zeros(len(x))
             ncov = np.zeros(len(x))
@@ -702,13 +900,14 @@ def make_remove_monitor(ctx, tag):
             rel = d[idx] / np.maximum(heights[idx], 1e-300)
             ctx.dev('remove.inside_error_over_height', float(np.max(rel)))
             ctx.event('remove.inside', int(covered.sum()))
+            ctx.event('remove.inside.' + how, int(covered.sum()))
             badm = d[idx] > tol[idx]
             if np.any(badm):
                 j = int(idx[np.argmax(d[idx] - tol[idx])])
                 ctx.violation('remove_wrong_inside', f'{int(badm.sum())} points inside successful '
                               f'windows are not data minus the fitted peak(s), e.g. x = {float(x[j])!r}: got '
                               f'{float(got[j])!r}, expected {float(exp[j])!r} (data {float(y0[j])!r})',
-                              {**base, 'index': j}, covering_windows=int(ncov[j]))
+                              {**base, 'index': j}, covering_windows=int(ncov[j]), given_as=how)
 
     return on_start, on_return
 
@@ -718,33 +917,74 @@ WINDOW_CLASSES = ['sub_step', 'few_points', 'moderate', 'wide', 'full_range', 'e
                   'explicit_unsorted']
 ESTIMATE_CLASSES = ['inside', 'lower_edge', 'upper_edge', 'outside_below', 'outside_above',
                     'two_outside_above', 'two_outside_below', 'inside_then_far_outside']
-SPEC_CLASSES = 8
+# (#peak models, #background models) of a specification; a single model is given bare or
+# inside an iterable, several models always inside an iterable
+SPEC_SHAPES = [(1, 1), (1, 2), (2, 1), (1, 2), (1, 1), (2, 2), (1, 3), (3, 2)]
+SPEC_CLASSES = len(SPEC_SHAPES)
+PEAK_KINDS = ['gaussian', 'lorentzian', 'pseudo_voigt']
+# what lies under an estimate / which background the spectrum has
+CONTENT_CLASSES = ['peaks', 'some_estimates_without_peak', 'no_peak_at_all']
+BACKGROUND_CLASSES = ['flat', 'sloped', 'curved', 'strongly_curved']
 UNITS = [(None, None), ('angstrom', 'counts'), ('us', 'counts'), ('m', 'K'), (None, 'counts')]
 DIMS = ['x', 'dspacing', 'tof']
 
 
-def make_specs(cls, M):
-    """Model specifications: every name, instances with foreign prefixes, lists, mixed tuples."""
-    if cls == 0:
-        return 'gaussian', 'linear'
-    if cls == 1:
-        return 'lorentzian', 'quadratic'
-    if cls == 2:
-        return 'pseudo_voigt', 'linear'
-    if cls == 3:
-        return M.GaussianModel(prefix='foreign_'), M.PolynomialModel(degree=2, prefix='pre_')
-    if cls == 4:
-        return ['gaussian', 'lorentzian'], ['linear', 'quadratic']
-    if cls == 5:
-        return (('lorentzian', M.PseudoVoigtModel(prefix='v'), 'gaussian'),
-                (M.PolynomialModel(degree=1, prefix=''), 'quadratic'))
-    if cls == 6:
-        return [M.LorentzianModel(prefix='peak_')], 'linear'
-    return ['pseudo_voigt', 'gaussian'], 'quadratic'
+def _peak_element(kind, how, M):
+    if how == 'name':
+        return kind
+    cls = {'gaussian': M.GaussianModel, 'lorentzian': M.LorentzianModel,
+           'pseudo_voigt': M.PseudoVoigtModel}[kind]
+    return cls(prefix=how)
 
 
-def gen_spectrum(rng, tier):
-    n = int(round(10 ** rng.uniform(np.log10(50), np.log10(2000))))
+def _bkg_element(deg, how, M):
+    if how == 'name' and deg in (1, 2):
+        return {1: 'linear', 2: 'quadratic'}[deg]
+    return M.PolynomialModel(degree=deg, prefix='' if how == 'name' else how)
+
+
+def make_specs(cls, gi, rng, M, sources, max_pairs=6):
+    """Model specifications in every documented form: names, instances (default, expected or
+    foreign prefix), one model bare or several in any iterable (sequence, re-iterable, one-shot),
+    lists with several models of the same class (all backgrounds are polynomials; now and then
+    the same peak class twice)."""
+    n_peak, n_bkg = SPEC_SHAPES[cls]
+    if n_peak * n_bkg > max_pairs:
+        n_peak = max(1, max_pairs // n_bkg)
+    kinds = [str(k) for k in rng.permutation(PEAK_KINDS)[:n_peak]]
+    if n_peak > 1 and rng.random() < 0.15:
+        kinds[-1] = kinds[0]
+    # degrees of a background list: mostly the poorer model first (the documented example
+    # ['linear', 'quadratic']), but every order occurs; degree 3 exists as an instance only
+    r = rng.random()
+    if n_bkg == 1:
+        degs = [3] if r < 0.08 else ([1] if r < 0.54 else [2])
+    elif n_bkg == 2:
+        degs = [1, 2] if r < 0.7 else ([2, 1] if r < 0.82 else ([1, 3] if r < 0.92 else [2, 3]))
+    else:
+        degs = [1, 2, 3] if r < 0.6 else [int(d) for d in rng.permutation([1, 2, 3])]
+    hows_p = ['name', 'name', 'peak_', '', 'foreign_', 'v']
+    hows_b = ['name', 'name', 'bkg_', '', 'pre_', 'b2']
+    peaks = [_peak_element(k, hows_p[rng.integers(0, len(hows_p))], M) for k in kinds]
+    bkgs = [_bkg_element(d, hows_b[rng.integers(0, len(hows_b))], M) for d in degs]
+    desc = {'peak_models': kinds, 'background_degrees': degs}
+    out = []
+    for name, items, k in (('peak', peaks, gi), ('background', bkgs, gi + 5 + gi // len(FORMS))):
+        if len(items) == 1 and rng.random() < 0.6:
+            out.append(items[0])
+            desc[name + '_spec_form'] = 'bare'
+        else:
+            obj, form = in_form(FORMS[k % len(FORMS)], items, sources)
+            out.append(obj)
+            desc[name + '_spec_form'] = form
+    return out[0], out[1], desc
+
+
+def gen_spectrum(rng, tier, content='peaks', bgc=None, n_max=2000):
+    """A spectrum; ``peaks`` lists every place an estimate will point at.  Entries with
+    ``present`` False are places WITHOUT a peak (nothing is added to the signal there):
+    spurious estimates, as a peak finder produces them on noise or on a curved background."""
+    n = int(round(10 ** rng.uniform(np.log10(50), np.log10(n_max))))
     gk = ['uniform', 'uniform', 'uniform', 'geometric', 'quadratic'][rng.integers(0, 5)]
     i = np.arange(n, dtype=np.float64)
     if gk == 'uniform':
@@ -766,7 +1006,14 @@ def gen_spectrum(rng, tier):
     for j in range(npk):
         ci = 0.05 * n + seg * (j + rng.uniform(0.3, 0.7))
         ci = min(max(ci, 2), n - 3)
-        fw_steps = min(10 ** rng.uniform(np.log10(0.5), np.log10(40)), seg / 8)
+        present = content == 'peaks' or (content == 'some_estimates_without_peak'
+                                         and rng.random() < 0.6)
+        if present:
+            fw_steps = min(10 ** rng.uniform(np.log10(0.5), np.log10(40)), seg / 8)
+        else:
+            # no peak to keep apart from its neighbours: the nominal width (it only sizes the
+            # windows) ranges from below a grid step to half a segment
+            fw_steps = 10 ** rng.uniform(np.log10(0.5), np.log10(max(seg / 2, 1.0)))
         fw_steps = max(fw_steps, 0.5)
         local = steps[int(ci)]
         loc = float(np.interp(ci, i, x))
@@ -775,11 +1022,25 @@ def gen_spectrum(rng, tier):
         p = {'loc': loc, 'scale': fw / (2 * math.sqrt(2 * math.log(2))) if kind == 'gaussian' else fw / 2}
         if kind == 'pseudo_voigt':
             p['fraction'] = float(rng.uniform(0, 1))
-        peaks.append({'kind': kind, 'p': p, 'fwhm': fw, 'fwhm_steps': fw_steps})
+        peaks.append({'kind': kind, 'p': p, 'fwhm': fw, 'fwhm_steps': fw_steps,
+                      'present': bool(present)})
     t = (x - 0.5 * (x[0] + x[-1])) / (0.5 * (x[-1] - x[0]))
     b0 = 10 ** rng.uniform(1.3, 3)
-    quad = rng.random() < 0.5
-    bg = b0 * (1 + rng.uniform(-0.5, 0.5) * t + (rng.uniform(-0.3, 0.3) * t * t if quad else 0.0))
+    if bgc is None:
+        bgc = ['sloped', 'curved'][rng.integers(0, 2)]
+    if bgc == 'flat':
+        shape = np.ones(n)
+    elif bgc == 'sloped':
+        shape = 1 + rng.uniform(-0.5, 0.5) * t
+    elif bgc == 'curved':
+        shape = 1 + rng.uniform(-0.5, 0.5) * t + rng.uniform(-0.3, 0.3) * t * t
+    else:
+        c = rng.uniform(0.3, 1.5) * (1 if rng.random() < 0.5 else -1)
+        shape = 1 + rng.uniform(-0.5, 0.5) * t + c * (t - rng.uniform(-0.6, 0.6)) ** 2
+    if shape.min() < 0.2:
+        shape = shape + (0.2 - shape.min())
+    quad = bgc in ('curved', 'strongly_curved')
+    bg = b0 * shape
     y = bg.copy()
     if rng.random() < 0.5:
         sigma = np.full(n, b0 * 10 ** rng.uniform(-3, -1.3))
@@ -788,6 +1049,8 @@ def gen_spectrum(rng, tier):
         sigma = np.sqrt(bg) * 10 ** rng.uniform(-1.0, 0.3)
         nk = 'sqrt'
     for pk in peaks:
+        if not pk['present']:
+            continue
         at = float(np.interp(pk['p']['loc'], x, sigma))
         height = at * 10 ** rng.uniform(np.log10(5), np.log10(500))
         pk['p']['amplitude'] = 1.0
@@ -798,15 +1061,23 @@ def gen_spectrum(rng, tier):
         y = y + pm.peak(pk['kind'], x, pk['p']).astype(np.float64)
     y = y + rng.normal(0.0, 1.0, n) * sigma
     return {'x': x, 'y': y, 'var': sigma ** 2, 'peaks': peaks, 'grid': gk, 'noise': nk,
-            'quadratic_bg': quad, 'n': n}
+            'quadratic_bg': quad, 'background_class': bgc, 'content': content, 'n': n}
 
 
-def build_case(rng, gi, tier, M, P):
+def build_case(rng, gi, tier, M, P, sources):
     """One fit_peaks call: (data, kwargs, tag)."""
     wc = WINDOW_CLASSES[gi % len(WINDOW_CLASSES)]
     ec = ESTIMATE_CLASSES[(gi // len(WINDOW_CLASSES)) % len(ESTIMATE_CLASSES)]
     sc_cls = gi % SPEC_CLASSES if (gi // 56) % 2 == 0 else int(rng.integers(0, SPEC_CLASSES))
-    s = gen_spectrum(rng, tier)
+    content = CONTENT_CLASSES[gi % len(CONTENT_CLASSES)]
+    bgc = BACKGROUND_CLASSES[int(rng.integers(0, len(BACKGROUND_CLASSES)))]
+    # an attempt that does not converge costs ~10^4 model evaluations, and where there is no peak
+    # a third of the attempts do not converge and every pair of a list is tried: the budget
+    # (a case count) is kept by drawing fewer points for wide windows and, in the quick tier,
+    # by at most 3 model pairs for spectra with estimates that have no peak under them
+    n_max = 800 if wc in ('wide', 'full_range') else (2000 if content == 'peaks' else 1000)
+    max_pairs = 6 if (tier != 'quick' or content == 'peaks') else 3
+    s = gen_spectrum(rng, tier, content, bgc, n_max)
     x, n = s['x'], s['n']
     xu, yu = UNITS[rng.integers(0, len(UNITS))]
     dim = DIMS[rng.integers(0, len(DIMS))]
@@ -817,6 +1088,7 @@ def build_case(rng, gi, tier, M, P):
     med = float(np.median(np.diff(x)))
     est = np.array([pk['p']['loc'] + rng.uniform(-0.3, 0.3) * pk['fwhm'] for pk in s['peaks']])
     fwhms = [pk['fwhm'] for pk in s['peaks']]
+    free = [not pk['present'] for pk in s['peaks']]
     out_d = lambda: float(10 ** rng.uniform(np.log10(0.5 * med), np.log10(0.6 * rng_x)))  # noqa: E731
     if ec == 'lower_edge':
         est[0] = x[0]
@@ -831,18 +1103,22 @@ def build_case(rng, gi, tier, M, P):
         extra = [x[-1] + d1, x[-1] + d1 + out_d()]
         est = np.concatenate([est[:4], extra])
         fwhms = fwhms[:4] + [fwhms[-1]] * 2
+        free = free[:4] + [True] * 2
     elif ec == 'two_outside_below':
         d1 = out_d()
         extra = [x[0] - d1 - out_d(), x[0] - d1]
         est = np.concatenate([extra, est[-4:]])
         fwhms = [fwhms[0]] * 2 + fwhms[-4:]
+        free = [True] * 2 + free[-4:]
     elif ec == 'inside_then_far_outside':
         est = np.concatenate([est[:5], [x[-1] + rng.uniform(0.3, 2.0) * rng_x]])
         fwhms = fwhms[:5] + [fwhms[-1]]
+        free = free[:5] + [True]
     order = np.argsort(est, kind='stable')
-    est, fwhms = est[order], [fwhms[k] for k in order]
+    est, fwhms, free = est[order], [fwhms[k] for k in order], [free[k] for k in order]
     m = len(est)
     tag = {'window_class': wc, 'estimate_class': ec, 'spec_class': sc_cls, 'grid': s['grid'],
+           'content': content, 'background_class': bgc,
            'units': [xu, yu], 'dim': dim, 'dips': sum(bool(pk.get('dip')) for pk in s['peaks'])}
     if wc == 'sub_step':
         windows = sc.scalar(med * rng.uniform(0.2, 0.95), unit=xu or 'one')
@@ -865,7 +1141,7 @@ def build_case(rng, gi, tier, M, P):
             w[k] = est[k] - half * rng.uniform(0.6, 1.4), est[k] + half * rng.uniform(0.6, 1.4)
         if wc == 'explicit_unsorted':
             perm = rng.permutation(m)
-            est, w = est[perm], w[perm]
+            est, w, free = est[perm], w[perm], [free[k] for k in perm]
             k = int(rng.integers(0, m))
             r = rng.random()
             if r < 0.25:
@@ -875,21 +1151,31 @@ def build_case(rng, gi, tier, M, P):
             elif r < 0.75:
                 w[k] = x[0] - rng_x, x[0] + med * rng.uniform(0.5, 30)  # sticks out below
         windows = sc.array(dims=[dim, 'range'], values=w, unit=xu or 'one')
-    peak_spec, bkg_spec = make_specs(sc_cls, M)
+    if windows.ndim == 0 and windows.value >= 4 and rng.random() < 0.25:
+        # a width given as an integer number (a Variable of integer dtype)
+        windows = sc.scalar(int(windows.value), unit=windows.unit)
+        tag['integer_width'] = True
+    # estimates (on the edge, outside or inside) under which the spectrum has no peak
+    tag['peak_free'] = [bool(f) for f in free]
+    peak_spec, bkg_spec, spec_desc = make_specs(sc_cls, gi, rng, M, sources, max_pairs)
+    tag.update(spec_desc)
     kw = {'peak_estimates': sc.array(dims=[dim], values=est, unit=xu or 'one'), 'windows': windows,
           'background': bkg_spec, 'peak': peak_spec}
     r = rng.random()
     if r < 0.5:
-        kw['fit_parameters'] = P.FitParameters(
-            neighbor_separation_factor=float(rng.uniform(0.05, 0.9)))
+        f = float(rng.uniform(0.05, 0.9))
+        # a plain int, a numpy scalar or a float
+        f = 0 if r < 0.04 else (np.float64(f) if r < 0.12 else f)
+        kw['fit_parameters'] = P.FitParameters(neighbor_separation_factor=f)
         tag['separation_factor'] = kw['fit_parameters'].neighbor_separation_factor
     if rng.random() < 0.5:
         kw['fit_requirements'] = P.FitRequirements(
-            min_p_value=float([0.01, 1e-4, 0.2][rng.integers(0, 3)]),
-            max_peak_width_factor=float([1.0, 0.5, 0.3][rng.integers(0, 3)]),
-            min_peak_width_factor=float([1.0, 2.0, 0.5][rng.integers(0, 3)]))
+            min_p_value=[0.01, 1e-4, 0.2, 0][rng.integers(0, 4)],
+            max_peak_width_factor=[1.0, 0.5, 0.3, 1][rng.integers(0, 4)],
+            min_peak_width_factor=[1.0, 2.0, 0.5, 2][rng.integers(0, 4)])
         tag['requirements'] = repr(kw['fit_requirements'])
-    sig = ('fit_peaks', wc, ec, sc_cls, s['grid'], m)
+    sig = ('fit_peaks', wc, ec, sc_cls, s['grid'], m, content, bgc,
+           tag['peak_spec_form'], tag['background_spec_form'])
     return data, kw, tag, sig, s
 
 
@@ -907,15 +1193,39 @@ def requirements(tier):
                    'model_order': 150 * k, 'isolation': 150 * k, 'auto_window': 150 * k,
                    'auto_window_separation': 60 * k, 'too_narrow_rule': 10 * k,
                    'remove_peaks': 100 * k, 'remove.inside': 1000 * k, 'remove.outside': 1000 * k,
-                   '_assess_fit': 150 * k},
+                   '_assess_fit': 150 * k,
+                   # decided cases of 'successful => not worse than the background alone' (AIC
+                   # of the same background model, refitted independently), for the first and
+                   # for later pairs of a model list, and results for estimates without a peak
+                   'success_vs_background_aic': 40 * k,
+                   'success_vs_background_aic.first_pair': 20 * k,
+                   'success_vs_background_aic.later_pair': 5 * k,
+                   'peak_free_window': 40 * k,
+                   # removal with the results given in every iterable form
+                   'remove_peaks.sequence': 10 * k, 'remove_peaks.re_iterable': 20 * k,
+                   'remove_peaks.one_shot_iterator': 40 * k,
+                   'remove.inside.one_shot_iterator': 500 * k},
         'forced': ['window with fewer points than parameters', 'estimate outside the data',
                    'estimate on the lower edge', 'estimate on the upper edge',
                    'window below the grid spacing', 'window spanning the full range',
                    'explicit windows', 'explicit windows, unsorted estimates',
                    'model list', 'instance with foreign prefix',
-                   'overlapping successful windows', 'spectrum with a dip (negative peak)'],
+                   'overlapping successful windows', 'spectrum with a dip (negative peak)',
+                   'estimate without a peak',
+                   *('spectrum without any peak, ' + b + ' background' for b in BACKGROUND_CLASSES),
+                   'several background models of the same class',
+                   'model given bare', 'model name', 'model instance',
+                   'model specification given as sequence',
+                   'model specification given as re_iterable',
+                   'model specification given as one_shot_iterator',
+                   'fit results given as sequence', 'fit results given as re_iterable',
+                   'fit results given as one_shot_iterator',
+                   'one-shot iterator of fit results with a successful fit'],
         'counters': {'success_after_failed_attempts': 1, 'all_pairs_failed': 1,
-                     'assessment:success': 30 * k},
+                     'assessment:success': 30 * k,
+                     'peak_free_window:background_is_better': 5 * k,
+                     **{f'success_vs_background_aic:{kd}+degree{d}': 1
+                        for kd in PEAK_KINDS for d in (1, 2)}},
     }
 
 
@@ -943,7 +1253,7 @@ def run(shard, ctx):
              on_return=mon.safe(mon.perform_return, '_perform_fit return'))
     tr.watch(FP._assess_fit, '_assess_fit',
              on_return=mon.safe(mon.assess_return, '_assess_fit return'))
-    rs, rr = make_remove_monitor(ctx, mon.tag)
+    rs, rr = make_remove_monitor(ctx, mon.tag, mon.sources)
     safe_rs = mon.safe(rs, 'remove start')
     tr.watch(RP.remove_peaks, 'remove_peaks', on_start=safe_rs,
              on_return=mon.safe(rr, 'remove return'))
@@ -953,10 +1263,11 @@ def run(shard, ctx):
         for j in range(per):
             gi = shard['index'] * per + j
             rng = np.random.Generator(np.random.PCG64([shard['seed'], shard['index'], j]))
-            data, kw, tag, sig, s = build_case(rng, gi, shard['tier'], M, P)
+            mon.sources.clear()
+            data, kw, tag, sig, s = build_case(rng, gi, shard['tier'], M, P, mon.sources)
             mon.tag.clear()
             mon.tag.update(tag)
-            _forced(ctx, tag, kw, data)
+            _forced(ctx, tag, kw, data, mon.sources)
             before = ctx.n_violations
             res = None
             try:
@@ -972,7 +1283,12 @@ def run(shard, ctx):
             if res is None:
                 continue
             plain = sc.DataArray(sc.values(data.data), coords=dict(data.coords))
-            for variant in ('as_fitted', 'overlapping'):
+            if rng.random() < 0.3:
+                # documented: '1d data with a dimension-coordinate'; more coordinates and masks
+                # are carried along
+                plain.coords['aux'] = sc.arange(data.dim, float(len(data)), unit='s')
+                plain.masks['m'] = plain.coords[data.dim] < plain.coords[data.dim][len(data) // 3]
+            for vi, variant in enumerate(('as_fitted', 'overlapping')):
                 fits = list(res)
                 if variant == 'overlapping':
                     ok = [r for r in res if r.assessment.name == 'success']
@@ -989,20 +1305,26 @@ def run(shard, ctx):
                         fits.append(r)
                     fits.append(dataclasses.replace(ok[0]))
                     rng.shuffle(fits)
+                # fit_results is an Iterable: every form, one-shot iterators included
+                arg, form = in_form(FORMS[(2 * gi + vi) % len(FORMS)], fits, mon.sources)
+                n_ok = sum(r.assessment.name == 'success' for r in fits)
+                ctx.hit('fit results given as ' + _iterable_class(arg))
+                if n_ok and _iterable_class(arg) == 'one_shot_iterator':
+                    ctx.hit('one-shot iterator of fit results with a successful fit')
                 try:
-                    P.remove_peaks(plain, fits)
+                    P.remove_peaks(plain, arg)
                 except Exception:  # noqa: BLE001  (judged by the monitor)
                     pass
-                ctx.case(('remove_peaks', variant, tag['window_class'], len(fits),
-                          sum(r.assessment.name == 'success' for r in fits)))
+                ctx.case(('remove_peaks', variant, tag['window_class'], len(fits), n_ok, form))
             if j == 0:
                 try:
-                    P.remove_peaks(data, list(res))  # data with variances: documented refusal
+                    # data with variances: documented refusal
+                    P.remove_peaks(data, in_form('iter', res, mon.sources)[0])
                 except Exception:  # noqa: BLE001
                     pass
 
 
-def _forced(ctx, tag, kw, data):
+def _forced(ctx, tag, kw, data, sources):
     x = data.coords[data.dim].values
     est = kw['peak_estimates'].values
     w = kw['windows']
@@ -1023,12 +1345,28 @@ def _forced(ctx, tag, kw, data):
             ctx.hit('explicit windows, unsorted estimates')
     if tag.get('dips'):
         ctx.hit('spectrum with a dip (negative peak)')
-    for s in (kw['peak'], kw['background']):
-        if isinstance(s, list | tuple) and len(s) > 1:
-            ctx.hit('model list')
-        for e in _as_list(s):
-            if not isinstance(e, str) and e.prefix not in ('peak_', 'bkg_'):
-                ctx.hit('instance with foreign prefix')
+    if any(tag['peak_free']):
+        ctx.hit('estimate without a peak')
+    if tag['content'] == 'no_peak_at_all':
+        ctx.hit('spectrum without any peak, ' + tag['background_class'] + ' background')
+    if len(tag['peak_models']) > 1 or len(tag['background_degrees']) > 1:
+        ctx.hit('model list')
+    if len(tag['background_degrees']) > 1:
+        ctx.hit('several background models of the same class')
+    for which, s in (('peak', kw['peak']), ('background', kw['background'])):
+        if _is_single_model(s):
+            ctx.hit('model given bare')
+            els = [s]
+        else:
+            ctx.hit('model specification given as ' + _iterable_class(s))
+            els = sources.elements(s)
+        for e in els:
+            if isinstance(e, str):
+                ctx.hit('model name')
+            else:
+                ctx.hit('model instance')
+                if e.prefix not in ('peak_', 'bkg_'):
+                    ctx.hit('instance with foreign prefix')
 
 
 # ------------------------------------------------------- known findings ---
